@@ -40,6 +40,8 @@ func probeDesign() *m.Design {
 		&m.HTTPEndpoint{Routes: []m.Route{{Verb: "POST", Path: "/bodyobj"}}, Body: &m.Body{Mode: "attr", Attr: "t"}})
 	add("bodyprim", obj(fld("id", m.Prim(m.Float64), false)),
 		&m.HTTPEndpoint{Routes: []m.Route{{Verb: "POST", Path: "/bodyprim"}}, Body: &m.Body{Mode: "attr", Attr: "id"}})
+	add("wholemap", &m.Attr{Type: &m.Type{Kind: m.Map, Key: m.Prim(m.String), Val: m.Prim(m.String)}},
+		&m.HTTPEndpoint{Routes: []m.Route{{Verb: "GET", Path: "/wholemap"}}, MapParams: "*"})
 	d.Services = []*m.Service{s}
 	return d
 }
@@ -106,6 +108,10 @@ func TestProbes(t *testing.T) {
 		o := call("primpath", value.Str("xy"))
 		return o.StubCalls != 1 || !strings.Contains(o.Received.Canon(), `"xy"`), `payload "xy" in /prim/{p}: request path ` + reqPath(o) + `, received ` + o.Received.Canon()
 	})
+	probe("C02-mapparams-whole-map-payload-lost", func() (bool, string) {
+		o := call("wholemap", value.MapOf(value.Str("a"), value.Str("b")))
+		return o.StubCalls != 1 || !strings.Contains(o.Received.Canon(), `"b"`), `map payload {"a":"b"} with MapParams(): request ` + reqPath(o) + "?" + reqQuery(o) + `, stub calls ` + itoa(o.StubCalls) + `, received ` + o.Received.Canon()
+	})
 	probe("C02-body-attr-optional-unset-client-panic", func() (bool, string) {
 		o := call("bodyobj", value.Object())
 		return o.Panic != "", "client panic: " + firstLines(o.Panic, 1)
@@ -114,6 +120,13 @@ func TestProbes(t *testing.T) {
 		o := call("bodyprim", value.Object())
 		return o.StubCalls == 1 && strings.Contains(o.Received.Canon(), "ID:"), "payload {} received as " + o.Received.Canon()
 	})
+}
+
+func reqQuery(o *harness.Obs) string {
+	if len(o.Requests) == 0 {
+		return ""
+	}
+	return o.Requests[0].RawQuery
 }
 
 func status(o *harness.Obs) int {
